@@ -885,12 +885,14 @@ def build():
     for kind, entries in decls:
         e_cur = [x for x in entries if all(cfg_eval(c, fe) for c in x["cfgs"])]
         e_all = [x for x in entries if all(cfg_eval(c, fe, True) for c in x["cfgs"])]
-        dcur.append("(%s,\n      %s)" % (cs(kind), clist([coq_variant(*entry_variant(x, False)) for x in e_cur], "        ")))
+        def ent(x):
+            return "(%s, %s)" % (cs(entry_ident(x)), coq_variant(*entry_variant(x, False)))
+        dcur.append("(%s,\n      %s)" % (cs(kind), clist([ent(x) for x in e_cur], "        ")))
         if e_all != e_cur:
-            dfull.append("(%s,\n      %s)" % (cs(kind + "#all-features"),
-                                              clist([coq_variant(*entry_variant(x, False)) for x in e_all], "        ")))
-    coq.append("Definition event_tables : list (str * list variant) :=\n  %s.\n" % clist(dcur, "    "))
-    coq.append("Definition event_tables_all_features : list (str * list variant) :=\n  %s.\n" % clist(dfull, "    "))
+            dfull.append("(%s,\n      %s)" % (cs(kind + "#all-features"), clist([ent(x) for x in e_all], "        ")))
+    coq.append("(* per kind: (variant identifier of the Any*Event enums, declaration), in the order of the generated match *)")
+    coq.append("Definition event_tables : list (str * list (str * variant)) :=\n  %s.\n" % clist(dcur, "    "))
+    coq.append("Definition event_tables_all_features : list (str * list (str * variant)) :=\n  %s.\n" % clist(dfull, "    "))
     rust.append("}")
     rust.append("")
     rust.append("// Declared in the source but not compiled into the harness (checked by the Coq obligations only):")
